@@ -32,9 +32,12 @@ def convertFmtStr (f : Str) : Str :=
      | _, _ => f)
   | _ => f
 
+/-- `escape_const`: a backslash in front of every regex special character of the text -/
+def escapeConst (v : Str) : Str := v.flatMap fun c => if Gen.const_escape_chars.contains c then ['\\', c] else [c]
+
 /-- the rows of `CustomConstant.formatter()` -/
 def rows (m : List (Str × Str)) : List DirRow :=
-  m.map fun (k, v) => (k, false, "(?P<".toList ++ convertFmtStr k ++ ['>'] ++ v ++ [')'])
+  m.map fun (k, v) => (k, false, "(?P<".toList ++ convertFmtStr k ++ ['>'] ++ escapeConst v ++ [')'])
 
 def concatKeys (m : List (Str × Str)) : Str := m.foldr (fun p acc => p.1 ++ acc) []
 
